@@ -74,19 +74,29 @@ Lemma diamond_below_heir_accepted : parser_diamond_below_heir_accepted = true.
 Proof. reflexivity. Qed.
 Lemma grant_inherited_columns : parser_grant_inherited_columns = true.
 Proof. reflexivity. Qed.
+(* an operation granted without columns means the whole table whatever else the statement lists for it
+   (d412e0d3e; `op_cols` of the model follows the flag) *)
+Lemma grant_whole_table_wins : parser_grant_whole_table_wins = true.
+Proof. reflexivity. Qed.
 
 (* The faithful model of the Go compiler against the spec - the link theorem: for every well-formed
    schema the model compiles it and the oracle `satisfies` accepts the model's output (so the
-   property holds on every input on which compiler and model agree).  No hypothesis beyond `wf a`:
-   the ten points at which compilers of this family have differed are read off the source, and the
-   source does all ten the spec's way (side conditions above; a regression flips a flag and breaks one). *)
+   property holds on every input on which compiler and model agree).
+
+   Eleven points at which compilers of this family have differed are read off the source; ten of them
+   the source does the spec's way (side conditions above).  One is an open finding (F33: Ancestors()
+   enumerates indirect ancestors as direct ones): for it the theorem carries the hypothesis "the
+   compiler does it the spec's way, or the schema stays clear of the shape". *)
 Theorem go_model_meets_spec :
   forall a, wf a = true ->
-  exists d, compile a Go = Some d /\ satisfies (Trace a (render a) (Compiled d true true)) = true.
+  (parser_ancestors_direct = true \/ no_indirect_anc a = true) ->   (* F33 *)
+  exists d, compile a Go = Some d /\ satisfies (Trace a (render a) (Compiled d true true (direct_anc_shown a Go))) = true.
 Proof.
-  exact (go_meets_spec_proved uniques_numbered_per_type nested_tables_inherit view_refs_recorded
-                              inherited_grants_once lookup_respects_package inherits_in_own_package descriptor_refs_analysed
-                              inherited_nested_in_own_package diamond_below_heir_accepted grant_inherited_columns).
+  exact (fun a Hwf => go_meets_spec_within_proved uniques_numbered_per_type nested_tables_inherit view_refs_recorded a Hwf
+                        (or_introl inherited_grants_once) (or_introl lookup_respects_package)
+                        (or_introl inherits_in_own_package) (or_introl descriptor_refs_analysed)
+                        (or_introl inherited_nested_in_own_package) (or_introl diamond_below_heir_accepted)
+                        (or_introl grant_inherited_columns)).
 Qed.
 
 (* the form the theorem had while the repairs of F26..F32 were missing: each hypothesis reads "the
@@ -101,7 +111,8 @@ Theorem go_model_meets_spec_within :
   (parser_inherited_nested_in_own_package = true \/ no_foreign_nested a = true) ->  (* F30 *)
   (parser_diamond_below_heir_accepted = true \/ no_diamond_below a = true) ->       (* F31 *)
   (parser_grant_inherited_columns = true \/ grant_cols_own a = true) ->             (* F32 *)
-  exists d, compile a Go = Some d /\ satisfies (Trace a (render a) (Compiled d true true)) = true.
+  (parser_ancestors_direct = true \/ no_indirect_anc a = true) ->                   (* F33 *)
+  exists d, compile a Go = Some d /\ satisfies (Trace a (render a) (Compiled d true true (direct_anc_shown a Go))) = true.
 Proof. exact (go_meets_spec_within_proved uniques_numbered_per_type nested_tables_inherit view_refs_recorded). Qed.
 
 (* item for item: the model's output is the spec's output (a workspace's ACL is its declared block of
@@ -113,7 +124,7 @@ Proof.
                    (or_introl inherited_grants_once) (or_introl descriptor_refs_analysed)).
 Qed.
 
-(* The same for any compiler of this family (mode m): at each of the ten points it does what the
+(* The same for any compiler of this family (mode m): at each of the eleven points it does what the
    spec does, or the schema avoids the shape on which they differ ... *)
 Theorem any_mode_meets_spec_conditional :
   forall a m, wf a = true ->
@@ -127,7 +138,8 @@ Theorem any_mode_meets_spec_conditional :
   (m_nested_pkg m = true \/ no_foreign_nested a = true) ->
   (m_diamond m = true \/ no_diamond_below a = true) ->
   (m_grant_inh m = true \/ grant_cols_own a = true) ->
-  exists d, compile a m = Some d /\ satisfies (Trace a (render a) (Compiled d true true)) = true.
+  (m_direct_anc m = true \/ no_indirect_anc a = true) ->
+  exists d, compile a m = Some d /\ satisfies (Trace a (render a) (Compiled d true true (direct_anc_shown a m))) = true.
 Proof. exact satisfies_model_output_proved. Qed.
 
 (* ... and the conditions are needed: the compiler as it was before the repairs of F23, F24, F25
@@ -144,13 +156,13 @@ Proof. vm_compute. repeat split. Qed.
 
 Example before_repair_refuted_F24 :
   wf a_f24 = true
-  /\ (exists d, compile a_f24 GoBefore = Some d /\ satisfies (Trace a_f24 (render a_f24) (Compiled d true true)) = false)
+  /\ (exists d, compile a_f24 GoBefore = Some d /\ satisfies (Trace a_f24 (render a_f24) (Compiled d true true true)) = false)
   /\ no_unique_collision a_f24 GoBefore = true /\ no_nested_user_inherit a_f24 = false /\ no_view_ref_targets a_f24 = true.
 Proof. split; [vm_compute; reflexivity|]. split; [eexists; split; vm_compute; reflexivity|]. vm_compute. repeat split. Qed.
 
 Example before_repair_refuted_F25 :
   wf a_f25 = true
-  /\ (exists d, compile a_f25 GoBefore = Some d /\ satisfies (Trace a_f25 (render a_f25) (Compiled d true true)) = false)
+  /\ (exists d, compile a_f25 GoBefore = Some d /\ satisfies (Trace a_f25 (render a_f25) (Compiled d true true true)) = false)
   /\ no_unique_collision a_f25 GoBefore = true /\ no_nested_user_inherit a_f25 = true /\ no_view_ref_targets a_f25 = false.
 Proof. split; [vm_compute; reflexivity|]. split; [eexists; split; vm_compute; reflexivity|]. vm_compute. repeat split. Qed.
 
@@ -176,18 +188,18 @@ Example shapes_of_the_probes :
   /\ wf a_f29bad = false.
 Proof. vm_compute. repeat split. Qed.
 
-Example old_name_lookup_not_the_spec_F26 : compile a_f26 (Mode true true true false false true true true true true) = None.
+Example old_name_lookup_not_the_spec_F26 : compile a_f26 (Mode true true true false false true true true true true true) = None.
 Proof. vm_compute. reflexivity. Qed.
 Example old_inherits_resolution_not_the_spec_F27 :
-  compile a_f27t (Mode true true true false true false true true true true) = None /\ compile a_f27w (Mode true true true false true false true true true true) = None.
+  compile a_f27t (Mode true true true false true false true true true true true) = None /\ compile a_f27w (Mode true true true false true false true true true true true) = None.
 Proof. vm_compute. split; reflexivity. Qed.
 Example repeated_acl_refuted_F28 :
-  exists d, compile a_f28 (Mode true true true true true true true true true true) = Some d
-            /\ satisfies (Trace a_f28 (render a_f28) (Compiled d true true)) = false.
+  exists d, compile a_f28 (Mode true true true true true true true true true true true) = Some d
+            /\ satisfies (Trace a_f28 (render a_f28) (Compiled d true true true)) = false.
 Proof. eexists; split; vm_compute; reflexivity. Qed.
 Example lost_descriptor_refs_refuted_F29 :
-  exists d, compile a_f29 (Mode true true true false true true false true true true) = Some d
-            /\ satisfies (Trace a_f29 (render a_f29) (Compiled d true true)) = false.
+  exists d, compile a_f29 (Mode true true true false true true false true true true true) = Some d
+            /\ satisfies (Trace a_f29 (render a_f29) (Compiled d true true true)) = false.
 Proof. eexists; split; vm_compute; reflexivity. Qed.
 (* F30, F31, F32 (repaired since): three more probes, each well-formed and hitting exactly one shape; the one-flag-off
    variants do not model what the code does there (it adds a phantom nested table / refuses the
@@ -199,29 +211,41 @@ Example shapes_of_the_probes_F30_F31_F32 :
   (wf a_f30 = true /\ no_foreign_nested a_f30 = false /\ no_diamond_below a_f30 = true /\ grant_cols_own a_f30 = true)
   /\ (wf a_f31 = true /\ no_foreign_nested a_f31 = true /\ no_diamond_below a_f31 = false /\ grant_cols_own a_f31 = true)
   /\ (wf a_f32 = true /\ no_foreign_nested a_f32 = true /\ no_diamond_below a_f32 = true /\ grant_cols_own a_f32 = false)
-  /\ compile a_f30 (Mode true true true false true true true false true true) = None
-  /\ compile a_f31 (Mode true true true false true true true true false true) = None
-  /\ compile a_f32 (Mode true true true false true true true true true false) = None
+  /\ compile a_f30 (Mode true true true false true true true false true true true) = None
+  /\ compile a_f31 (Mode true true true false true true true true false true true) = None
+  /\ compile a_f32 (Mode true true true false true true true true true false true) = None
   /\ forallb (fun a => match compile a Go with
-                       | Some d => satisfies (Trace a (render a) (Compiled d true true))
+                       | Some d => satisfies (Trace a (render a) (Compiled d true true true))
                        | None => false end) [a_f30; a_f31; a_f32] = true
   /\ match find (fun i => qname_eqb (item_key i) ("app1", "T")%string) (compile_items a_f30 Ideal) with
      | Some (ItStruct _ _ _ _ _ _ cs _) => map cd_type cs = [("liba", "N")%string]
      | _ => False end.
 Proof. vm_compute. repeat split. Qed.
 
+(* F33 (open): W INHERITS A, A INHERITS Base.  The model's workspace item carries all ancestors; that
+   Ancestors() of the compiled W is [A] and not [A; Base] is the separate observation `direct_anc`:
+   a compiler that does not keep them apart shows `false` and the oracle refuses the trace. *)
+Definition a_f33 : schema := [(Pkg "app1"%string [[(Ws "Base"%string true [] None []); (Ws "A"%string true [(QR "app1"%string "Base"%string)] None []); (Ws "W"%string false [(QR "app1"%string "A"%string)] None [])]])].
+Example indirect_ancestors_shown_as_direct_refuted_F33 :
+  wf a_f33 = true /\ no_indirect_anc a_f33 = false
+  /\ direct_anc_shown a_f33 (Mode true true true false true true true true true true false) = false
+  /\ (exists d, compile a_f33 Ideal = Some d
+                /\ satisfies (Trace a_f33 (render a_f33) (Compiled d true true false)) = false
+                /\ satisfies (Trace a_f33 (render a_f33) (Compiled d true true true)) = true).
+Proof. split; [vm_compute; reflexivity|]. split; [vm_compute; reflexivity|]. split; [vm_compute; reflexivity|]. eexists; repeat split; vm_compute; reflexivity. Qed.
+
 (* and the compiler as it is passes on all of them *)
 Example repaired_compiler_on_the_probes :
   forallb (fun a => match compile a Go with
-                    | Some d => satisfies (Trace a (render a) (Compiled d true true))
+                    | Some d => satisfies (Trace a (render a) (Compiled d true true true))
                     | None => false end) [a_f26; a_f27t; a_f27w; a_f28; a_f29] = true.
 Proof. vm_compute. reflexivity. Qed.
 
 (* the three probes are accepted by the oracle for the compiler as it is *)
 Example repaired_probes :
-  (exists d, compile a_f23 Go = Some d /\ satisfies (Trace a_f23 (render a_f23) (Compiled d true true)) = true)
-  /\ (exists d, compile a_f24 Go = Some d /\ satisfies (Trace a_f24 (render a_f24) (Compiled d true true)) = true)
-  /\ (exists d, compile a_f25 Go = Some d /\ satisfies (Trace a_f25 (render a_f25) (Compiled d true true)) = true).
+  (exists d, compile a_f23 Go = Some d /\ satisfies (Trace a_f23 (render a_f23) (Compiled d true true true)) = true)
+  /\ (exists d, compile a_f24 Go = Some d /\ satisfies (Trace a_f24 (render a_f24) (Compiled d true true true)) = true)
+  /\ (exists d, compile a_f25 Go = Some d /\ satisfies (Trace a_f25 (render a_f25) (Compiled d true true true)) = true).
 Proof. repeat split; eexists; split; vm_compute; reflexivity. Qed.
 
 (* non-vacuity: a two-package application (workspace and table inheritance across packages, a nested
@@ -233,7 +257,7 @@ Definition ex : schema := [(Pkg "app1"%string [[(Ws "W1"%string false [(QR "liba
 Example ex_nonvacuous :
   wf ex = true
   /\ List.length (compile_items ex Ideal) = 11%nat
-  /\ (exists d, compile ex Go = Some d /\ satisfies (Trace ex (render ex) (Compiled d true true)) = true)
+  /\ (exists d, compile ex Go = Some d /\ satisfies (Trace ex (render ex) (Compiled d true true true)) = true)
   /\ match find (fun i => qname_eqb (item_key i) ("app1", "T2Row")%string) (compile_items ex Ideal) with
      | Some (ItStruct _ k _ _ _ fs _ us) =>
        k = KCRecord /\ map fd_name fs = ["sys.QName"; "sys.ID"; "sys.ParentID"; "sys.Container"; "sys.IsActive";
@@ -281,6 +305,7 @@ Print Assumptions old_inherits_resolution_not_the_spec_F27.
 Print Assumptions repeated_acl_refuted_F28.
 Print Assumptions lost_descriptor_refs_refuted_F29.
 Print Assumptions shapes_of_the_probes_F30_F31_F32.
+Print Assumptions indirect_ancestors_shown_as_direct_refuted_F33.
 Print Assumptions repaired_compiler_on_the_probes.
 Print Assumptions ex_nonvacuous.
 Print Assumptions ex_declares_role.
